@@ -3,9 +3,7 @@ NEXT SimNext
 CONSTANTS
   ChanSeq <- SimChanSeq
   MaxLen = 3
-  Kinds = {"msg", "msg", "meta"}
-  Apis = {"reader", "bytes"}
-  PageSizes = {1, 2, 4}
+  Cfgs <- SimCfgs
   BadVariants = {"trunc", "dropLast", "dropLastFix", "swapFix", "hwLowFix", "otherSlot"}
   MaxAppends = 3
   MaxAttempts = 6
